@@ -857,7 +857,7 @@ func (fc *FuncCtx) execInvoke(x *ssa.Call, st *State, reach string) {
 	ct := fc.V.CS.Funcs[key]
 	if ct == nil {
 		if n, ok := it.(*types.Named); ok {
-			ct = fc.V.CS.Funcs["runtime."+n.Obj().Name()+"."+m.Name()]
+			ct = fc.V.CS.Funcs["lox.runtime."+n.Obj().Name()+"."+m.Name()]
 		}
 	}
 	site := fc.siteKey(m.Name())
